@@ -524,6 +524,7 @@ auto quantiles_sketch<T, C, A>::deserialize(const void* bytes, size_t size, cons
   (*tmp).~T();
 
   if (serial_version == 1) {
+    ensure_minimum_memory(end_ptr - ptr, sizeof(uint64_t));
     uint64_t unused_long;
     ptr += copy_from_mem(ptr, unused_long); // no longer used
   }
